@@ -173,6 +173,18 @@ func genDatagram(r *Rng) ([]byte, string) {
 	return b, tag
 }
 
+// a packet whose wire size is exactly total (>= 3900): fifteen 255-byte attributes and one that fills the rest
+func exactPacket(r *Rng, total int) *mpkt {
+	m := &mpkt{code: r.Pick(1, 2, 4), ident: byte(r.Intn(256)), sec: r.Bytes(1 + r.Intn(8))}
+	copy(m.auth[:], r.Bytes(16))
+	for i := 0; i < 15; i++ {
+		m.attrs = append(m.attrs, aop{0, r.Pick(1, 2, 25, 255), r.Bytes(253)})
+	}
+	rest := total - 20 - 15*255 - 2
+	m.attrs = append(m.attrs, aop{0, 5, r.Bytes(rest)})
+	return m
+}
+
 func genPacket(r *Rng) *mpkt {
 	m := &mpkt{code: r.Pick(-1, 0, 1, 2, 3, 4, 5, 11, 12, 13, 40, 41, 42, 43, 44, 45, 255, 256, 1000, r.Intn(256)), ident: byte(r.Intn(256)), sec: r.Bytes(r.Intn(9))}
 	copy(m.auth[:], r.Bytes(16))
@@ -251,6 +263,9 @@ func init() {
 		n = c.N(3000, 80000)
 		for i := 0; i < n; i++ {
 			m := genPacket(r)
+			if i < 25 {
+				m = exactPacket(r, 4094+i%5) // the boundary itself: 4094..4098 bytes
+			}
 			t, w := implBytesRes(func() ([]byte, error) { return m.packet().MarshalBinary() })
 			tag := "marshal-err"
 			if w != nil {
